@@ -42,12 +42,15 @@ Definition key_ltb (a b : key) : bool :=
   else if k_prog a <? k_prog b then true else if k_prog b <? k_prog a then false
   else negb (k_drum a) && k_drum b.
 
+(** sorted(instrument_events.keys()): the dict holds each key once *)
 Fixpoint kins (x : key) (l : list key) : list key :=
   match l with
   | [] => [x]
-  | y :: r => if key_eqb x y then l else if key_ltb x y then x :: l else y :: kins x r
+  | y :: r => if key_ltb x y then x :: l else y :: kins x r
   end.
-Definition ksort (l : list key) : list key := fold_right kins [] l.
+Definition kadd (x : key) (acc : list key) : list key :=
+  if existsb (key_eqb x) acc then acc else kins x acc.
+Definition ksort (l : list key) : list key := fold_right kadd [] l.
 
 Definition note_key (n : note) : key := (n_instr n, n_prog n, n_drum n).
 Definition bend_key (b : bend) : key := (pb_instr b, pb_prog b, pb_drum b).
